@@ -24,7 +24,9 @@ impl Bandwidth {
         match self {
             Bandwidth::_7KHz => 7810u32,
             Bandwidth::_10KHz => 10420u32,
-            Bandwidth::_15KHz => 15630u32,
+            // 500 kHz / 32, exactly: the datasheets' rounded 15.63 kHz put SF8 (16.384 ms)
+            // below the 16.38 ms low-data-rate-optimisation boundary
+            Bandwidth::_15KHz => 15625u32,
             Bandwidth::_20KHz => 20830u32,
             Bandwidth::_31KHz => 31250u32,
             Bandwidth::_41KHz => 41670u32,
